@@ -132,8 +132,14 @@ func callIntrinsic(fr *frame, fn *ssa.Function, args []value) (value, bool) {
 		x.reached = append(x.reached, label)
 		if x.checking() && x.needWit != nil && x.needWit(label) {
 			if r, m := x.query(tb.True, true); r == smt.Sat {
+				var kc []string
+				for _, f := range x.failures {
+					if f.Known != "" {
+						kc = append(kc, f.Clause)
+					}
+				}
 				x.wits = append(x.wits, Witness{Label: label, Model: m, Nondets: append([]NondetVal(nil), x.nondets...),
-					Prefix: append([]Decision(nil), x.decisions...)})
+					Prefix: append([]Decision(nil), x.decisions...), KnownClauses: kc})
 			}
 		}
 		return nil, true
@@ -201,6 +207,10 @@ func callIntrinsic(fr *frame, fn *ssa.Function, args []value) (value, bool) {
 		return true, true
 	case "zzvBodyChildren":
 		return bodyChildren(fr, args[0], fn.Signature.Params().At(0).Type()), true
+	case "zzvDeepCopy":
+		itf := args[0].(iface)
+		cp := snapVal(itf.v, 0)
+		return iface{itf.t, cp}, true
 	case "zzvSameShape":
 		return x.deepEq(args[0], args[1], map[[2]*value]bool{}, 0), true
 	case "zzvIsSymbolic":
